@@ -1,5 +1,6 @@
 import MjProof.Lemmas.SolverCert
 import MjProof.Lemmas.PrimalSearch
+import MjProof.Lemmas.IslandSep
 import Mathlib.Algebra.Order.Star.Real
 /-
 C10  Constraint solvers return the optimum of the documented problem.
@@ -20,6 +21,12 @@ Newton, CG and PGS: checks/c10.py).
   island_decomposition        for block-separable (M, J, s) the minimisers are exactly the tuples of block
                               minimisers; `block_cost_separates` shows that block-diagonal M, J give such a cost;
                               `unconstrained_block_minimiser`: a block without constraint rows is minimised by a₀
+  island_solve_is_global_minimiser   for ANY labelling of dofs and rows (the engine's `dof_island`, `efc_island`) under which
+                              `M`, `J` are block diagonal, every row lies in an island and coupled rows (cone blocks) share
+                              their label: a point that is optimal island by island and equals a₀ outside the islands
+                              is the global minimiser (what `mj_fwdConstraint` relies on when it solves per island);
+                              `island_partition_checker_sound`: the executable check of Model/IslandSep.lean, which the
+                              driver runs on the real output of `mj_island`, decides exactly these hypotheses
   primalSearch_checked / primalEval_is_cost_difference / primalSearch_checked_decreases_cost /
   primal_monotone_partial / warmstart_picks_cheaper   (models: Model/SolverCert.lean, lemmas: Lemmas/PrimalSearch.lean)
 -/
@@ -240,6 +247,106 @@ theorem unconstrained_block_minimiser (M : Matrix (Fin n) (Fin n) ℝ) (hM : Sym
   have := hM.nonneg (x - a0)
   simp only [sub_self, Matrix.mulVec_zero, dotProduct_zero, mul_zero]
   linarith
+
+/-- **Solving per island returns the monolithic optimum.**  `labD`, `labR` label the dofs and the constraint rows
+    (the engine: `dof_island`, `efc_island`; `free` = −1, the dofs outside every island).  The constraint cost is a
+    sum over coupling groups `grp` (a scalar row is its own group, the rows of an elliptic cone form one group).
+    Hypotheses on the partition — exactly what `IslandSep.partitionOk` decides (`island_partition_checker_sound`):
+    `M` couples only equally labelled dofs and the Jacobian of a row is supported on the dofs with the row's label
+    (`Separable`), the rows of one group share their label, no row is labelled `free`.  Then a point `a` that
+    (i) cannot be improved by changing only the dofs of one island `k` — i.e. solves the sub-problem of every island —
+    and (ii) equals `a₀ = qacc_smooth` on the `free` dofs, minimises the documented cost over ALL accelerations. -/
+theorem island_solve_is_global_minimiser {K G : Type} [Fintype K] [DecidableEq K] [Fintype G] [DecidableEq G]
+    (M : Matrix (Fin n) (Fin n) ℝ) (J : Matrix (Fin m) (Fin n) ℝ) (a0 : Fin n → ℝ) (aref : Fin m → ℝ)
+    (grp : Fin m → G) (sg : G → (Fin m → ℝ) → ℝ) (labD : Fin n → K) (labR : Fin m → K) (free : K)
+    (hM : SymPSD M) (hsep : Separable M J labD labR) (hgrp : ∀ r r', grp r = grp r' → labR r = labR r')
+    (hfree : ∀ r, labR r ≠ free) (a : Fin n → ℝ)
+    (hblk : ∀ k, k ≠ free → ∀ x : Fin n → ℝ, (∀ j, labD j ≠ k → x j = a j) →
+      cost M J a0 aref (sGrp grp sg) a ≤ cost M J a0 aref (sGrp grp sg) x)
+    (hfa : ∀ j, labD j = free → a j = a0 j) (x : Fin n → ℝ) :
+    cost M J a0 aref (sGrp grp sg) a ≤ cost M J a0 aref (sGrp grp sg) x := by
+  classical
+  let labG : G → K := fun g => if h : ∃ r, grp r = g then labR (Classical.choose h) else free
+  have hlab : ∀ r, labG (grp r) = labR r := by
+    intro r
+    have h : ∃ r', grp r' = grp r := ⟨r, rfl⟩
+    simp only [labG, dif_pos h]
+    exact hgrp _ _ (Classical.choose_spec h)
+  have hsep' : Separable M J labD (fun r => labG (grp r)) := by
+    have : (fun r => labG (grp r)) = labR := funext hlab
+    rw [this]; exact hsep
+  have hfree' : ∀ r, labG (grp r) ≠ free := fun r => by rw [hlab]; exact hfree r
+  have hsum := fun y => cost_eq_sum_blocks M J a0 aref grp sg labD labG hsep' y
+  rw [hsum a, hsum x]
+  refine Finset.sum_le_sum fun k _ => ?_
+  by_cases hk : k = free
+  · subst hk
+    have h1 := blockCost_free M J a0 aref grp sg labD labG k hfree' a x
+    have h2 := gaussBlock_zero M a0 labD k a hfa
+    have h3 := gaussBlock_nonneg M hM a0 labD k x
+    rw [h2] at h1
+    linarith
+  · let y : Fin n → ℝ := fun j => if labD j = k then x j else a j
+    have h1 := hblk k hk y (fun j hj => by simp [y, hj])
+    rw [hsum a, hsum y] at h1
+    have h3 : blockCost M J a0 aref grp sg labD labG k y = blockCost M J a0 aref grp sg labD labG k x :=
+      blockCost_local M J a0 aref grp sg labD labG k y x (fun j hj => by simp [y, hj])
+    have e : ∑ l ∈ Finset.univ.erase k, blockCost M J a0 aref grp sg labD labG l y =
+        ∑ l ∈ Finset.univ.erase k, blockCost M J a0 aref grp sg labD labG l a := by
+      refine Finset.sum_congr rfl fun l hl => ?_
+      have hlk : l ≠ k := Finset.ne_of_mem_erase hl
+      refine blockCost_local M J a0 aref grp sg labD labG l y a (fun j hj => ?_)
+      have : labD j ≠ k := fun h => hlk (hj ▸ h)
+      simp [y, this]
+    have sa : blockCost M J a0 aref grp sg labD labG k a +
+        ∑ l ∈ Finset.univ.erase k, blockCost M J a0 aref grp sg labD labG l a =
+        ∑ l, blockCost M J a0 aref grp sg labD labG l a :=
+      Finset.add_sum_erase Finset.univ (fun l => blockCost M J a0 aref grp sg labD labG l a) (Finset.mem_univ k)
+    have sy : blockCost M J a0 aref grp sg labD labG k y +
+        ∑ l ∈ Finset.univ.erase k, blockCost M J a0 aref grp sg labD labG l y =
+        ∑ l, blockCost M J a0 aref grp sg labD labG l y :=
+      Finset.add_sum_erase Finset.univ (fun l => blockCost M J a0 aref grp sg labD labG l y) (Finset.mem_univ k)
+    linarith
+
+/-- the scalar-row constraint cost of `gradIneq_scalar_rows` is the grouped cost with one group per row -/
+theorem sOf_eq_sGrp (rows : Fin m → SRow) :
+    sOf rows = sGrp (fun r : Fin m => r) (fun g v => (rows g).cost (v g)) := by
+  funext v
+  simp [sOf, sGrp]
+
+/-- the island theorem for problems made of scalar rows (equality, friction loss, limits, frictionless and pyramidal
+    contacts): no grouping hypothesis is left -/
+theorem island_solve_is_global_minimiser_scalar_rows {K : Type} [Fintype K] [DecidableEq K]
+    (M : Matrix (Fin n) (Fin n) ℝ) (J : Matrix (Fin m) (Fin n) ℝ) (a0 : Fin n → ℝ) (aref : Fin m → ℝ)
+    (rows : Fin m → SRow) (labD : Fin n → K) (labR : Fin m → K) (free : K)
+    (hM : SymPSD M) (hsep : Separable M J labD labR) (hfree : ∀ r, labR r ≠ free) (a : Fin n → ℝ)
+    (hblk : ∀ k, k ≠ free → ∀ x : Fin n → ℝ, (∀ j, labD j ≠ k → x j = a j) →
+      cost M J a0 aref (sOf rows) a ≤ cost M J a0 aref (sOf rows) x)
+    (hfa : ∀ j, labD j = free → a j = a0 j) (x : Fin n → ℝ) :
+    cost M J a0 aref (sOf rows) a ≤ cost M J a0 aref (sOf rows) x := by
+  rw [sOf_eq_sGrp] at hblk ⊢
+  exact island_solve_is_global_minimiser M J a0 aref _ _ labD labR free hM hsep
+    (fun r r' h => by rw [h]) hfree a hblk hfa x
+
+open MjProof.IslandSep in
+/-- **The executable partition check decides the hypotheses of the island theorem**: the driver evaluates
+    `partitionOk` on the non-zero patterns of the engine's dense `M`, `J` and on `dof_island` / `efc_island`. -/
+theorem island_partition_checker_sound {K G : Type} [DecidableEq K] [DecidableEq G]
+    (M : Matrix (Fin n) (Fin n) ℝ) (J : Matrix (Fin m) (Fin n) ℝ) (labD : Fin n → K) (labR : Fin m → K) (free : K)
+    (grp : Fin m → G) :
+    partitionOk (fun i j => decide (M i j ≠ 0)) (fun r j => decide (J r j ≠ 0)) labD labR free grp = true ↔
+      (Separable M J labD labR ∧ (∀ r, labR r ≠ free) ∧ ∀ r r', grp r = grp r' → labR r = labR r') := by
+  unfold partitionOk Separable
+  simp only [Bool.and_eq_true, List.isEmpty_iff, badM_nil_iff, badJ_nil_iff, freeRows_nil_iff, badGrp_nil_iff]
+  tauto
+
+open MjProof.IslandSep in
+/-- non-vacuity: two dofs, dof 0 in island 0 with one row, dof 1 outside every island: accepted; the same row with a
+    non-zero Jacobian entry at the outside dof (a constraint coupling a tree that the island omits): refused -/
+example : partitionOk (n := 2) (m := 1) (fun i j => i == j) (fun _ j => j == 0)
+    (fun j => if j = 0 then some (0 : Fin 1) else none) (fun _ => some 0) none (fun r => r) = true ∧
+  partitionOk (n := 2) (m := 1) (fun i j => i == j) (fun _ _ => true)
+    (fun j => if j = 0 then some (0 : Fin 1) else none) (fun _ => some 0) none (fun r => r) = false := by decide
 
 /-! ### line search, acceptance and warm start (model: Model/SolverCert.lean, lemmas: Lemmas/PrimalSearch.lean) -/
 
